@@ -299,9 +299,9 @@ theorem skipTrivia_ws {s : St} {ws tl : Text} (hs : s.rest = ws ++ tl) (hb : Bla
     rw [skipTriviaN, hround]
     simp only [↓reduceIte]
     have hst : Stop ({ (s.adv (r.length + 1)) with start := (s.adv (r.length + 1)).pos } : St).rest := by
-      simp only [rest_setStart, adv_rest, hdrop]; exact ⟨h1, h2, h3⟩
+      simp only [adv_rest, hdrop]; exact ⟨h1, h2, h3⟩
     rw [skipTriviaN_stop _ hst]
-    exact ⟨by simp only [rest_setStart, adv_rest, hdrop], rfl⟩
+    exact ⟨by simp only [adv_rest, hdrop], rfl⟩
 
 /-- `t` is `tl`, possibly after one blank -/
 def Bl (t tl : Text) : Prop := t = tl ∨ t = 32 :: tl
@@ -458,7 +458,7 @@ theorem startsWith_prefix : ∀ (t a b : Text), startsWith t (a ++ b) = true →
 theorem mLit_self (lit tl : Text) : mLit lit (lit ++ tl) = some lit.length := by
   simp [mLit, startsWith_self_append]
 
-theorem mLit_ne {lit : Text} {d : Nat} {l : Text} {c : Nat} (r : Text) (h : c ≠ d) :
+theorem mLit_ne {d : Nat} {l : Text} {c : Nat} (r : Text) (h : c ≠ d) :
     mLit (d :: l) (c :: r) = none := by
   have : (c == d) = false := by simp; omega
   simp [mLit, startsWith, this]
@@ -483,3 +483,378 @@ theorem isIdent_iff (name : Text) :
         · simp [hc] at h
   · rintro ⟨c, r, rfl, hc, hr, hp⟩
     simp [hp, hc, spanLen_of_all _ r hr]
+
+theorem isIdent_dest {name : Text} (h : IsIdent name) :
+    ∃ c r, name = c :: r ∧ isIdentStart c = true ∧ r.all isIdentChar = true ∧
+      startsWith name sPUSH = false := (isIdent_iff name).1 h
+
+theorem mIdentifier_ident {name : Text} (h : IsIdent name) (tl : Text) :
+    mIdentifier (name ++ 32 :: tl) = some name.length := by
+  obtain ⟨c, r, rfl, hc, hr, hp⟩ := isIdent_dest h
+  have h1 : startsWith ((c :: r) ++ 32 :: tl) sPUSH = false := by
+    rw [startsWith_append_ne (c :: r) sPUSH 32 tl (by decide)]; exact hp
+  have h2 := spanLen_append isIdentChar r 32 tl hr (by decide)
+  unfold mIdentifier
+  rw [h1]
+  simp [hc, h2]
+
+theorem mIdentifier_none {c : Nat} (r : Text) (h : isIdentStart c = false) :
+    mIdentifier (c :: r) = none := by
+  unfold mIdentifier
+  split <;> simp [h]
+
+theorem mLit_push_ident {name : Text} (h : IsIdent name) (tl : Text) :
+    mLit sPUSH (name ++ 32 :: tl) = none := by
+  obtain ⟨c, r, rfl, _, _, hp⟩ := isIdent_dest h
+  have h1 : startsWith (c :: (r ++ 32 :: tl)) sPUSH = false := by
+    have := startsWith_append_ne (c :: r) sPUSH 32 tl (by decide)
+    simp only [List.cons_append] at this
+    rw [this]; exact hp
+  simp [mLit, h1]
+
+theorem mLit_pushLit_of_push {t : Text} (h : mLit sPUSH t = none) : mLit sPUSH_LITERAL t = none := by
+  unfold mLit at h ⊢
+  by_cases h1 : startsWith t sPUSH_LITERAL = true
+  · have : startsWith t sPUSH = true :=
+      startsWith_prefix t sPUSH [95, 76, 73, 84, 69, 82, 65, 76] h1
+    simp [this] at h
+  · simp [h1]
+
+theorem keywordKind_ne (v : Text) : keywordKind v ≠ .string ∧ keywordKind v ≠ .stringCI := by
+  unfold keywordKind
+  repeat' split
+  all_goals exact ⟨nofun, nofun⟩
+
+theorem spell_keyword (n v : Text) : spell (keywordKind n, v) = v := by
+  have := keywordKind_ne n
+  generalize keywordKind n = k at this
+  cases k <;> first | rfl | exact absurd rfl this.1 | exact absurd rfl this.2
+
+theorem keywordKind_peek {v : Text} : keywordKind v = .peek ↔ v = sPEEK := by
+  unfold keywordKind
+  constructor
+  · intro h
+    by_cases h1 : v = sPEEK
+    · exact h1
+    · simp only [h1, ↓reduceIte] at h
+      repeat' split at h
+      all_goals cases h
+  · intro h; simp [h]
+
+theorem isIdent_PEEK : IsIdent sPEEK := by unfold IsIdent; decide
+
+theorem isTagName_dest {t : Text} (h : IsTagName t) :
+    ∃ c r, t = c :: r ∧ isIdentStart c = true ∧ r.all isIdentChar = true := by
+  cases t with
+  | nil => exact False.elim h
+  | cons c r => exact ⟨c, r, rfl, h.1, h.2⟩
+
+theorem mTag_tag {t : Text} (h : IsTagName t) (tl : Text) :
+    mTag ((35 :: t) ++ 32 :: tl) = some (35 :: t).length := by
+  obtain ⟨c, r, rfl, hc, hr⟩ := isTagName_dest h
+  have h2 := spanLen_append isIdentChar r 32 tl hr (by decide)
+  simp [mTag, hc, h2]
+
+theorem mTag_none {c : Nat} (r : Text) (h : c ≠ 35) : mTag (c :: r) = none := by
+  simp [mTag, h]
+
+/-! ### decimal numbers -/
+
+theorem natDigitsAux_digits : ∀ (fuel n : Nat) (acc : List Nat), acc.all isDigit = true →
+    (natDigitsAux fuel n acc).all isDigit = true := by
+  intro fuel
+  induction fuel with
+  | zero => intro n acc h; exact h
+  | succ f ih =>
+    intro n acc h
+    unfold natDigitsAux
+    split
+    · rename_i hn
+      have : isDigit (48 + n) = true := by simp [isDigit]; omega
+      simp only [List.all_cons, this, h, Bool.and_self]
+    · apply ih
+      have : isDigit (48 + n % 10) = true := by simp [isDigit]; omega
+      simp only [List.all_cons, this, h, Bool.and_self]
+
+theorem natDigitsAux_ne_nil : ∀ (fuel n : Nat) (acc : List Nat), acc ≠ [] →
+    natDigitsAux fuel n acc ≠ [] := by
+  intro fuel
+  induction fuel with
+  | zero => intro n acc h; exact h
+  | succ f ih =>
+    intro n acc h
+    unfold natDigitsAux
+    split
+    · simp
+    · exact ih _ _ (by simp)
+
+theorem natDigits_digits (n : Nat) : (natDigits n).all isDigit = true :=
+  natDigitsAux_digits _ _ _ rfl
+
+theorem natDigits_ne_nil (n : Nat) : natDigits n ≠ [] := by
+  unfold natDigits natDigitsAux
+  split
+  · simp
+  · exact natDigitsAux_ne_nil _ _ _ (by simp)
+
+/-- the first digit of a positive number is not `0` -/
+theorem natDigitsAux_head : ∀ (fuel n : Nat) (acc : List Nat), 0 < n → n < fuel →
+    ∃ d ds, natDigitsAux fuel n acc = d :: ds ∧ 49 ≤ d ∧ d ≤ 57 := by
+  intro fuel
+  induction fuel with
+  | zero => intro n acc _ h; omega
+  | succ f ih =>
+    intro n acc h0 hf
+    unfold natDigitsAux
+    split
+    · exact ⟨48 + n, acc, rfl, by omega, by omega⟩
+    · exact ih _ _ (by omega) (by omega)
+
+theorem natDigits_pos {n : Nat} (h : 0 < n) :
+    ∃ d ds, natDigits n = d :: ds ∧ 49 ≤ d ∧ d ≤ 57 ∧ ds.all isDigit = true := by
+  obtain ⟨d, ds, e, h1, h2⟩ := natDigitsAux_head (n + 1) n [] h (by omega)
+  have := natDigits_digits n
+  unfold natDigits at this ⊢
+  rw [e] at this
+  simp only [List.all_cons, Bool.and_eq_true] at this
+  exact ⟨d, ds, e, h1, h2, this.2⟩
+
+theorem natDigits_cons (n : Nat) :
+    ∃ d ds, natDigits n = d :: ds ∧ isDigit d = true ∧ ds.all isDigit = true := by
+  have h1 := natDigits_ne_nil n
+  have h2 := natDigits_digits n
+  cases h : natDigits n with
+  | nil => exact absurd h h1
+  | cons d ds =>
+    rw [h] at h2
+    simp only [List.all_cons, Bool.and_eq_true] at h2
+    exact ⟨d, ds, rfl, h2.1, h2.2⟩
+
+theorem mNumber_digits {w : Text} (hw : w.all isDigit = true) (hne : w ≠ []) (tl : Text) :
+    mNumber (w ++ 32 :: tl) = some w.length := by
+  have h := spanLen_append isDigit w 32 tl hw (by decide)
+  have : w.length ≠ 0 := by
+    cases w with
+    | nil => exact absurd rfl hne
+    | cons _ _ => simp
+  simp [mNumber, h, this]
+
+theorem mNumber_none {c : Nat} (r : Text) (h : isDigit c = false) : mNumber (c :: r) = none := by
+  simp [mNumber, spanLen, h]
+
+theorem mNumber_natDigits (n : Nat) (tl : Text) :
+    mNumber (natDigits n ++ 32 :: tl) = some (natDigits n).length :=
+  mNumber_digits (natDigits_digits n) (natDigits_ne_nil n) tl
+
+theorem mInteger_int (i : Int) (tl : Text) :
+    mInteger (intDigits i ++ 32 :: tl) = some (intDigits i).length := by
+  unfold intDigits
+  by_cases hi : i < 0
+  · simp only [hi, ↓reduceIte]
+    have hpos : 0 < i.natAbs := by omega
+    obtain ⟨d, ds, e, h1, h2, h3⟩ := natDigits_pos hpos
+    rw [e]
+    have hn : mNumber (45 :: d :: (ds ++ 32 :: tl)) = none := mNumber_none _ (by decide)
+    have hz : spanLen (· == 48) (d :: (ds ++ 32 :: tl)) = 0 := by
+      have : (d == 48) = false := by simp; omega
+      simp [spanLen, this]
+    have hd : (decide (49 ≤ d) && decide (d ≤ 57)) = true := by simp; omega
+    have hs := spanLen_append isDigit ds 32 tl h3 (by decide)
+    simp only [mInteger, hn, List.cons_append, hz, List.drop_zero, hd, ↓reduceIte, hs,
+      List.length_cons]
+    congr 1; omega
+  · simp only [hi, ↓reduceIte]
+    simp only [mInteger, mNumber_natDigits]
+
+theorem mInteger_none {c : Nat} (r : Text) (h : isDigit c = false) (h' : c ≠ 45) :
+    mInteger (c :: r) = none := by
+  simp [mInteger, mNumber_none r h, h']
+
+theorem intDigits_hd (i : Int) (tl : Text) :
+    Hd (fun c => isDigit c || c == 45) (intDigits i ++ tl) := by
+  unfold intDigits
+  split
+  · simp
+  · obtain ⟨d, ds, e, h1, _⟩ := natDigits_cons i.toNat
+    rw [e]; simp [h1]
+
+/-! ### character literals -/
+
+theorem mChar_charLit (c : Nat) (tl : Text) : mChar (charLit c ++ tl) = some (charLit c).length := by
+  unfold charLit
+  by_cases h : c = 92
+  · subst h
+    simp [mChar, mEscape, Unescape.escapeLen]
+  · simp [mChar, h]
+
+theorem mChar_none {c : Nat} (r : Text) (h : c ≠ 39) : mChar (c :: r) = none := by
+  simp [mChar, h]
+
+theorem charLit_cons (c : Nat) : ∃ r, charLit c = 39 :: r := by
+  unfold charLit; split <;> exact ⟨_, rfl⟩
+
+/-! ### strings -/
+
+open Unescape in
+theorem specUnescape_escapeBody : ∀ s : Text, specUnescape (escapeBody s) = some s := by
+  intro s
+  induction s with
+  | nil => exact specUnescape_nil
+  | cons c r ih =>
+    unfold escapeBody
+    by_cases h : c = 34 ∨ c = 92
+    · simp only [h, ↓reduceIte]
+      have hs : simpleEscape c = some c := by
+        rcases h with h | h <;> subst h <;> rfl
+      rw [specUnescape_esc_some (specEscape_simple (escapeBody r) hs)]
+      simp [ih]
+    · simp only [h, ↓reduceIte]
+      rw [specUnescape_cons_char _ (by omega), ih]; rfl
+
+/-- decoding the canonical body of a literal gives the string back -/
+theorem unescape_escapeBody (s : Text) : Unescape.unescape (escapeBody s) = .ok s :=
+  Unescape.unescape_of_spec (specUnescape_escapeBody s)
+
+/-- some character of the string is spelled as an escape -/
+def needsEsc (s : Text) : Bool := s.any fun c => c == 34 || c == 92
+
+theorem escapeBody_plain : ∀ s : Text, needsEsc s = false → escapeBody s = s := by
+  intro s
+  induction s with
+  | nil => intro _; rfl
+  | cons c r ih =>
+    intro h
+    simp only [needsEsc, List.any_cons, Bool.or_eq_false_iff] at h
+    have hc : ¬ (c = 34 ∨ c = 92) := by
+      have := h.1; simp at this; omega
+    simp only [escapeBody, hc, ↓reduceIte]
+    rw [ih h.2]
+
+theorem stringLoop_plain (kind : TK) (n : Nat) (body : Text) (esc : Bool) (s : St) (c : Nat)
+    (r : Text) (hs : s.rest = c :: r) (h1 : c ≠ 92) (h2 : c ≠ 34) :
+    stringLoop kind (n + 1) body esc s = stringLoop kind n (c :: body) esc (s.adv 1) := by
+  simp only [stringLoop]
+  split
+  · rename_i heq; rw [hs] at heq; cases heq
+  · rename_i heq; rw [hs] at heq; cases heq; omega
+  · rename_i heq; rw [hs] at heq; cases heq; omega
+  · rename_i heq; rw [hs] at heq; cases heq; rfl
+
+theorem stringLoop_esc (kind : TK) (n : Nat) (body : Text) (esc : Bool) (s : St) (r : Text)
+    (k : Nat) (hs : s.rest = 92 :: r) (hk : mEscape r = some k) :
+    stringLoop kind (n + 1) body esc s =
+      stringLoop kind n ((r.take k).reverse ++ 92 :: body) true ((s.adv 1).adv k) := by
+  simp only [stringLoop, hs, hk]
+
+theorem stringLoop_close_raw (kind : TK) (n : Nat) (body : Text) (s : St) (r : Text)
+    (hs : s.rest = 34 :: r) :
+    stringLoop kind (n + 1) body false s = .ok true ((s.adv 1).emit kind body.reverse) := by
+  simp [stringLoop, hs]
+
+theorem stringLoop_close_esc (kind : TK) (n : Nat) (body : Text) (s : St) (r v : Text)
+    (hs : s.rest = 34 :: r) (hv : Unescape.unescape body.reverse = .ok v) :
+    stringLoop kind (n + 1) body true s = .ok true ((s.adv 1).emit kind v) := by
+  simp [stringLoop, hs, hv]
+
+/-- the loop of `accept_string` over the canonical body of `str`, from any accumulator -/
+theorem sp_stringLoop (kind : TK) : ∀ (str : Text) (n : Nat) (body : Text) (esc : Bool)
+    (v tl : Text), (escapeBody str).length < n →
+    (if (esc || needsEsc str) = true
+      then Unescape.unescape (body.reverse ++ escapeBody str) = .ok v
+      else body.reverse ++ escapeBody str = v) →
+    Sp (stringLoop kind n body esc) (escapeBody str ++ 34 :: tl) true tl [(kind, v)] := by
+  intro str
+  induction str with
+  | nil =>
+    intro n body esc v tl hn hv s hs
+    cases n with
+    | zero => omega
+    | succ n =>
+      simp only [escapeBody, List.nil_append] at hs
+      simp only [escapeBody, needsEsc, List.any_nil, Bool.or_false, List.append_nil] at hv
+      cases esc with
+      | true =>
+        simp only [↓reduceIte] at hv
+        rw [stringLoop_close_esc kind n body s tl v hs hv]
+        exact ⟨_, rfl, by simp [hs], by simp⟩
+      | false =>
+        simp only [Bool.false_eq_true, ↓reduceIte] at hv
+        rw [stringLoop_close_raw kind n body s tl hs, hv]
+        exact ⟨_, rfl, by simp [hs], by simp⟩
+  | cons c r ih =>
+    intro n body esc v tl hn hv s hs
+    cases n with
+    | zero => omega
+    | succ n =>
+      by_cases hc : c = 34 ∨ c = 92
+      · have he : escapeBody (c :: r) = 92 :: c :: escapeBody r := by simp [escapeBody, hc]
+        have hne : needsEsc (c :: r) = true := by
+          rcases hc with h | h <;> subst h <;> simp [needsEsc]
+        rw [he] at hs hn hv
+        have hk : mEscape (c :: (escapeBody r ++ 34 :: tl)) = some 1 := by
+          rcases hc with h | h <;> subst h <;> simp [mEscape, Unescape.escapeLen]
+        rw [stringLoop_esc kind n body esc s _ 1 (by simpa using hs) hk]
+        simp only [hne, Bool.or_true, ↓reduceIte] at hv
+        have hv' : (if (true || needsEsc r) = true
+            then Unescape.unescape ((c :: 92 :: body).reverse ++ escapeBody r) = .ok v
+            else (c :: 92 :: body).reverse ++ escapeBody r = v) := by
+          simp only [Bool.true_or, ↓reduceIte]
+          simpa using hv
+        have hn' : (escapeBody r).length < n := by simp at hn; omega
+        obtain ⟨s', e, r', o⟩ := ih n (c :: 92 :: body) true v tl hn' hv' ((s.adv 1).adv 1)
+          (by simp [hs])
+        exact ⟨s', by simpa using e, r', by simpa using o⟩
+      · have he : escapeBody (c :: r) = c :: escapeBody r := by simp [escapeBody, hc]
+        have hne : needsEsc (c :: r) = needsEsc r := by
+          have : (c == 34 || c == 92) = false := by simp; omega
+          simp [needsEsc, this]
+        rw [he] at hs hn hv
+        rw [stringLoop_plain kind n body esc s c _ (by simpa using hs) (by omega) (by omega)]
+        have hv' : (if (esc || needsEsc r) = true
+            then Unescape.unescape ((c :: body).reverse ++ escapeBody r) = .ok v
+            else (c :: body).reverse ++ escapeBody r = v) := by
+          rw [hne] at hv
+          simpa using hv
+        have hn' : (escapeBody r).length < n := by simp at hn; omega
+        obtain ⟨s', e, r', o⟩ := ih n (c :: body) esc v tl hn' hv' (s.adv 1) (by simp [hs])
+        exact ⟨s', e, r', by simpa using o⟩
+
+theorem sp_stringLoop_start (kind : TK) (str tl : Text) (n : Nat) (hn : (escapeBody str).length < n) :
+    Sp (stringLoop kind n [] false) (escapeBody str ++ 34 :: tl) true tl [(kind, str)] := by
+  apply sp_stringLoop kind str n [] false str tl hn
+  by_cases h : needsEsc str = true
+  · simp [h, unescape_escapeBody]
+  · simp only [Bool.not_eq_true] at h
+    simp [h, escapeBody_plain str h]
+
+theorem sp_acceptString (str tl : Text) :
+    Sp acceptString (34 :: (escapeBody str ++ 34 :: tl)) true tl [(.string, str)] := by
+  intro s hs
+  unfold acceptString
+  simp only [peek_cons hs, ↓reduceIte]
+  have := sp_stringLoop_start .string str tl ((s.adv 1).rest.length + 1) (by simp [hs]; omega)
+  exact this.from s _ (by simp [hs]) (k0 := []) (by simp only [List.append_nil]; rfl)
+
+theorem sp_acceptString_no {t : Text} (h : t.head? ≠ some 34) : Sp acceptString t false t [] := by
+  intro s hs
+  exact ⟨s, by simp [acceptString, St.peek, hs, h], hs, by simp⟩
+
+theorem sp_acceptCIString (str tl : Text) :
+    Sp acceptCIString (94 :: 34 :: (escapeBody str ++ 34 :: tl)) true tl [(.stringCI, str)] := by
+  intro s hs
+  unfold acceptCIString
+  simp only [peek_cons hs, ↓reduceIte]
+  have hst : Stop ({ (s.adv 1) with start := (s.adv 1).pos } : St).rest := by
+    simp only [rest_setStart, adv_rest, hs, List.drop_succ_cons, List.drop_zero]
+    exact stop_tokc _ (by decide)
+  rw [skipTrivia_stop hst]
+  have hp : ({ (s.adv 1) with start := (s.adv 1).pos } : St).peek = some 34 :=
+    peek_cons (r := escapeBody str ++ 34 :: tl) (by simp [hs])
+  simp only [hp, ↓reduceIte]
+  have := sp_stringLoop_start .stringCI str tl
+    ((({ (s.adv 1) with start := (s.adv 1).pos } : St).adv 1).rest.length + 1) (by simp [hs]; omega)
+  exact this.from s _ (by simp [hs]) (k0 := []) (by simp only [List.append_nil]; rfl)
+
+theorem sp_acceptCIString_no {t : Text} (h : t.head? ≠ some 94) : Sp acceptCIString t false t [] := by
+  intro s hs
+  exact ⟨s, by simp [acceptCIString, St.peek, hs, h], hs, by simp⟩
